@@ -204,6 +204,14 @@ func hostiles(t *harness.TxSpec) []hostile {
 				alts = hostileStrings(tt)
 			case json.Number:
 				alts = []interface{}{json.Number("-1"), json.Number("0"), json.Number("7"), json.Number("9223372036854775807"), json.Number("-9223372036854775808"), json.Number("9223372036854775808"), json.Number("1e40"), json.Number("1.5"), "1", nil}
+				// every small natural (an integer field may index a small collection whose size depends on
+				// the chain state: witnesses, validators, votes) and the neighbours of the valid value
+				for n := int64(1); n <= 9; n++ {
+					alts = append(alts, json.Number(fmt.Sprint(n)))
+				}
+				if c, err := tt.Int64(); err == nil && c > 0 && c < 1<<62 {
+					alts = append(alts, json.Number(fmt.Sprint(c+1)), json.Number(fmt.Sprint(c-1)), json.Number(fmt.Sprint(2*c)))
+				}
 			case bool:
 				alts = []interface{}{!tt, nil, "true", json.Number("1")}
 			case nil:
